@@ -2,6 +2,8 @@
 pub use self::async_dispatcher::AsyncDispatcher;
 #[cfg(feature = "parallel")]
 pub use self::par_seq::{Par, ParSeq, RunWithPool, Seq};
+#[cfg(feature = "verif-hooks")]
+pub use self::dispatcher::VerifLayout;
 pub use self::{
     batch::{
         BatchAccessor, BatchController, BatchUncheckedWorld, MultiDispatchController,
